@@ -10,6 +10,7 @@ import (
 	"fmt"
 	"go/token"
 	"go/types"
+	"regexp"
 	"strings"
 
 	"golang.org/x/tools/go/ssa"
@@ -134,8 +135,79 @@ func sliceRoots(v ssa.Value, li *loopInfo, seen map[ssa.Value]bool) ([]ssa.Value
 		if b, ok := i.Call.Value.(*ssa.Builtin); ok && b.Name() == "append" {
 			return sliceRoots(i.Call.Args[0], li, seen)
 		}
+		// append-like callees: the result shares the array of one argument or is fresh
+		if appendLikeArg != nil {
+			if a := appendLikeArg(i); a != nil {
+				return sliceRoots(a, li, seen)
+			}
+		}
 	}
 	return nil, false
+}
+
+// appendLikeArg (set while a function is executed): for a call whose callee's contract
+// ensures `sameArray(result, p) || fresh(result)` - or binary.*.AppendUintN - the argument p.
+var appendLikeArg func(c *ssa.Call) ssa.Value
+
+var appendLikeRe = regexp.MustCompile(`^sameArray\(result, (\w+)\) \|\| fresh\(result\)$`)
+
+func (x *Exec) appendLikeArgOf(c *ssa.Call) ssa.Value {
+	cal := c.Call.StaticCallee()
+	if cal == nil {
+		return nil
+	}
+	key := fullFuncKey(cal)
+	if (strings.HasPrefix(key, "encoding/binary.(bigEndian).AppendUint") || strings.HasPrefix(key, "encoding/binary.(littleEndian).AppendUint")) && len(c.Call.Args) >= 2 {
+		return c.Call.Args[1]
+	}
+	ct := x.contractFor(key)
+	if ct == nil {
+		return nil
+	}
+	for _, e := range ct.Ensures {
+		m := appendLikeRe.FindStringSubmatch(strings.TrimSpace(e.Src))
+		if m == nil {
+			continue
+		}
+		for i, p := range cal.Params {
+			if p.Name() == m[1] && i < len(c.Call.Args) {
+				return c.Call.Args[i]
+			}
+		}
+	}
+	return nil
+}
+
+// elemsOnlyAssigns: when every assigns place of the callee's contract is elems(<param>),
+// the arguments bound to those parameters (nil otherwise).
+func (x *Exec) elemsOnlyAssigns(cc *ssa.CallCommon) []ssa.Value {
+	cal := cc.StaticCallee()
+	if cal == nil {
+		return nil
+	}
+	ct := x.contractFor(fullFuncKey(cal))
+	if ct == nil || !ct.HasAssigns || len(ct.Assigns) == 0 {
+		return nil
+	}
+	var out []ssa.Value
+	for _, a := range ct.Assigns {
+		a = strings.TrimSpace(a)
+		if !strings.HasPrefix(a, "elems(") || !strings.HasSuffix(a, ")") {
+			return nil
+		}
+		name := strings.TrimSpace(a[len("elems(") : len(a)-1])
+		found := false
+		for i, p := range cal.Params {
+			if p.Name() == name && i < len(cc.Args) {
+				out = append(out, cc.Args[i])
+				found = true
+			}
+		}
+		if !found {
+			return nil
+		}
+	}
+	return out
 }
 
 // storeRoot analyses a store address: returns the heap key, the root value (nil
@@ -193,6 +265,7 @@ func isRootPointer(v ssa.Value) bool {
 }
 
 func (x *Exec) loopTargets(fr *Frame, li *loopInfo) (map[string]*loopMod, bool) {
+	appendLikeArg = x.appendLikeArgOf
 	mods := map[string]*loopMod{}
 	get := func(key string, t types.Type) *loopMod {
 		m := mods[key]
@@ -334,6 +407,27 @@ func (x *Exec) loopTargets(fr *Frame, li *loopInfo) (map[string]*loopMod, bool) 
 						} else if !fresh {
 							addRoots(m, roots, field)
 						}
+						continue
+					}
+				}
+				// callees whose contract assigns only the elements of argument slices
+				if args := x.elemsOnlyAssigns(cc); args != nil {
+					okAll := true
+					for _, arg := range args {
+						sl, isSl := arg.Type().Underlying().(*types.Slice)
+						if !isSl {
+							okAll = false
+							break
+						}
+						m := get(heapKeySlice(sl.Elem()), sl.Elem())
+						roots, ok := sliceRoots(arg, li, map[ssa.Value]bool{})
+						if !ok {
+							m.whole = true
+						} else {
+							addRoots(m, roots, -1)
+						}
+					}
+					if okAll {
 						continue
 					}
 				}
